@@ -155,7 +155,15 @@ func c16Wire(r *vfRun) {
 	for d := 0; d < nd; d++ {
 		sizes[d] = (n + d*(B+1)) % (3*B + 3)
 		if kind0 {
-			sizes[d] = []int{n % 300, (n * 7) % 40, 130 + n%5, 3}[d%4]
+			// around the batch size of 128 in a third of the runs, small otherwise (creating the files is what costs)
+			big := 120 + n%20
+			if n%3 != 0 {
+				big = n % 40
+			}
+			sizes[d] = []int{big, (n * 7) % 40, 126 + n%5, 3}[d%4]
+			if d == 2 && n%3 == 0 {
+				sizes[d] = n % 9
+			}
 		}
 		prog = append(prog, vfOp{K: "opendir", P: fmt.Sprintf("/w%d", d), H: d})
 	}
